@@ -801,6 +801,22 @@ def iterated_collection(fl, next_bb):
     return out
 
 
+def prepared_list(fl, next_bb):
+    """The loop whose `Iterator::next` is in block next_bb walks a local collection that this body filled beforehand by
+    `push` (a plan / work list): returns the push sites [(bb, term)], else []"""
+    coll = [o for o in iterated_collection(fl, next_bb) if o.kind != 'comb']
+    if not coll or any(o.kind in ('param', 'upvar') for o in coll):
+        return []
+    keys = {(o.kind, str(o.key), o.bb) for o in coll if o.kind in ('call', 'agg')}
+    if not any(k[0] == 'call' and k[1].split('::')[-1] in ('new', 'with_capacity', 'default') for k in keys):
+        return []
+    out = []
+    for pb, pt in fl.calls(lambda c: c.split('::')[-1] in ('push', 'push_back', 'insert') and ('Vec' in c or 'VecDeque' in c)):
+        if {(o.kind, str(o.key), o.bb) for o in fl.origins(pt['args'][0]) if o.kind in ('call', 'agg')} & keys:
+            out.append((pb, pt))
+    return out
+
+
 def order_edges(fl, is_a, is_b, strict=False):
     """CFG edges on which a <= b (strict: a < b) is known, for operands recognised by the predicates is_a / is_b on
     *operands* (op dicts), whatever comparison operator and operand order the code uses:
